@@ -72,7 +72,11 @@ func (pass *DisjunctionToType) processDisjunction(visitor *Visitor, schema *ast.
 		resolvedType, _ := schema.Resolve(disjunction.Branches[0])
 		scalarKind := resolvedType.AsScalar().ScalarKind
 
-		return ast.NewScalar(scalarKind, ast.Default(def.Default)), nil
+		scalar := ast.NewScalar(scalarKind, ast.Default(def.Default))
+		// the scalar replaces the disjunction: it stays nullable if the disjunction was
+		scalar.Nullable = def.Nullable
+
+		return scalar, nil
 	}
 
 	// type | otherType | something (| null)?
